@@ -5,7 +5,6 @@ release; stream-management histories; compression offers), with the harness's pe
 released) NOT ignored.  Everything else (generator, model-free oracle, tags, model input) is C01's."""
 import os
 
-from .common import load_corpus
 from . import conn_gen, c01
 
 ID = "C12"
@@ -29,18 +28,12 @@ def corpus():
     """corpus/C12/conn_*.ops only: the other files of corpus/C12 belong to the stanza engine"""
     import glob
     here = os.path.dirname(os.path.dirname(os.path.dirname(os.path.abspath(__file__))))
-    names = sorted(os.path.basename(f) for f in glob.glob(os.path.join(here, "corpus", ID, "*.ops")))
-    allc = load_corpus(ID)               # same order (sorted glob), files without ops are skipped there
     res = []
-    k = 0
-    for nm in names:
-        with open(os.path.join(here, "corpus", ID, nm)) as fh:
+    # same file format and order as common.load_corpus(ID), restricted to conn_*.ops
+    for f in sorted(glob.glob(os.path.join(here, "corpus", ID, "conn_*.ops"))):
+        with open(f) as fh:
             ops = [l.strip() for l in fh if l.strip() and not l.startswith("#")]
-        if not ops:
-            continue
-        assert k < len(allc) and allc[k] == ops
-        k += 1
-        if nm.startswith("conn_"):
+        if ops:
             res.append(ops)
     return res
 
